@@ -212,6 +212,9 @@ func (x *X) buildRequest(op Op, n int) bulkReq {
 		rq.Payload = map[string]any{"data": envb}
 	case "correct":
 		rq.Payload = map[string]any{"data": envb, "options": []byte(`{"type":"credit-note","reason":"bulk"}`)}
+		if n%3 == 1 {
+			rq.Payload = map[string]any{"data": envb, "options": []byte(`{"type":"credit-note","reason":"bulk","copy_tax":true,"series":"C"}`)}
+		}
 		if n%3 == 0 {
 			rq.Payload = map[string]any{"data": envb, "schema": true}
 		}
